@@ -43,7 +43,7 @@ class IQueue(queue.Queue):
         if block and not self._qsize():
             raise Blocked()
         x = super().get(block, timeout)
-        self.owner.pops.append(x)
+        self.owner.pops.append((x, self.owner._tasks.get(x)))      # the entry in _tasks at the moment it is popped
         return x
 
 
@@ -202,6 +202,7 @@ class RealSys:
         self.owner = {}             # (enc worker, mailbox) -> enc addr of the creating task
         self.cli_log = []           # (conn index, canonical message) in sending order
         self.step_exc = None
+        self.in_step = False
         self.workers = [self._mkworker(k) for k in range(nw)]
         self.server = self._mkserver()
         self.clients = {}           # client index -> Chan
@@ -277,7 +278,8 @@ class RealSys:
                 raise
 
         def tcancel(task):
-            sim.labels.append(['drop', wmod._worker._id + 1, sim.ctask(task)])
+            if not sim.in_step:      # inside a main-thread step the discarded task is reported by its `skip` label
+                sim.labels.append(['drop', wmod._worker._id + 1, sim.ctask(task)])
             return o_tcancel(task)
 
         def cancel(w, future):
@@ -367,8 +369,7 @@ class RealSys:
     def _flush_pops(self, w, ran):
         pops, w.pops = w.pops, []
         skipped = pops[:-1] if ran else pops
-        for a in skipped:
-            held = w._tasks.get(a)
+        for a, held in skipped:
             self.labels.append(['skip', w._id + 1, enc_addr(a), self.ctask(held) if held is not None else None])
 
     # ---- channels
@@ -479,6 +480,7 @@ class RealSys:
                 self.des_failed = False
                 n_err = sum(1 for m, _ in w._conn.q if m == M.ERROR)
                 ran = False
+                self.in_step = True
                 try:
                     w._try_step_next_ready_task()
                     ran = True
@@ -486,6 +488,8 @@ class RealSys:
                 except Blocked:
                     w.blocked = True
                     self._flush_pops(w, ran=False)
+                finally:
+                    self.in_step = False
                 if ran and self.step_exc is not None:
                     t_addr = self._last_run_addr()
                     sent = sum(1 for m, _ in w._conn.q if m == M.ERROR) > n_err
